@@ -72,12 +72,17 @@ pub fn acks(trace: &[Value]) -> Vec<Value> {
             }
             "Timeout" | "Call" => {
                 // time passes for the connection: overdue acknowledgements are judged here as well
-                let pa = &e["post"]["path"];
-                // the congestion window has no room for another full datagram
-                let cb = pa["cwnd"].as_i64().unwrap_or(1 << 40) - pa["ifb"].as_i64().unwrap_or(0) <= pa["mtu"].as_i64().unwrap_or(1200);
+                // the congestion window has no room for another full datagram (before or after the call:
+                // what kept the acknowledgement waiting is the state in which the connection sat)
+                let full = |pa: &Value| pa.is_object()
+                    && pa["cwnd"].as_i64().unwrap_or(1 << 40) - pa["ifb"].as_i64().unwrap_or(0) <= pa["mtu"].as_i64().unwrap_or(1200);
+                let cb = full(&e["post"]["path"]) || full(&e["pre"]["path"]);
                 // ... or the pacer makes the connection wait
                 let cb = cb || e["post"]["tm"][6].as_i64().unwrap_or(-1) != -1 || e["pre"]["tm"][6].as_i64().unwrap_or(-1) != -1;
-                out.push(json!({"ev":"Tick","n":e["n"],"c":e["c"],"t":t,"est":e["post"]["st"] == 1,"cb":cb}));
+                // an unvalidated path may be silenced by the anti-amplification limit (C07's business)
+                let cb = cb || e["post"]["path"]["val"] != true || (e["pre"]["path"].is_object() && e["pre"]["path"]["val"] != true);
+                out.push(json!({"ev":"Tick","n":e["n"],"c":e["c"],"t":t,"est":e["post"]["st"] == 1,"cb":cb,
+                    "val":e["post"]["path"]["val"] == true}));
             }
             _ => {}
         }
